@@ -409,7 +409,7 @@ func compareTable(f formula, boolAtoms, intAtoms []string, spec func(e env) bool
 			return
 		}
 		if ii < len(intAtoms) {
-			for v := int64(0); v <= 2; v++ {
+			for _, v := range intDomainFor(f, intAtoms[ii]) {
 				e.I[intAtoms[ii]] = v
 				rec(bi, ii+1)
 			}
@@ -475,7 +475,7 @@ func forAll(f formula, intDomain map[string][]int64, holds func(e env, fv bool) 
 		if ii < len(ints) {
 			dom := intDomain[ints[ii]]
 			if dom == nil {
-				dom = []int64{0, 1, 2}
+				dom = intDomainFor(f, ints[ii])
 				if strings.Contains(ints[ii], ".Kind(") {
 					dom = allKinds // a reflect.Kind term: every kind
 				}
@@ -624,4 +624,44 @@ func kindsAtSwitch(b *ssa.BasicBlock) (ssa.Value, map[int64]bool) {
 	}}
 	g := pb.pathCond(top, b)
 	return subj, kindsWhere(g, "switch.Kind(subject)")
+}
+
+// intDomainFor: the values an integer atom is enumerated over when the rule
+// gives no domain: 0..2 (all orderings of up to three unknowns), every constant
+// the formula compares the atom with, and one value different from all of them
+// - so that neither "atom == K" nor its negation is vacuously impossible.
+func intDomainFor(f formula, atom string) []int64 {
+	set := map[int64]bool{0: true, 1: true, 2: true}
+	var walk func(x formula)
+	walk = func(x formula) {
+		switch y := x.(type) {
+		case fNot:
+			walk(y.X)
+		case fAnd:
+			walk(y.A)
+			walk(y.B)
+		case fOr:
+			walk(y.A)
+			walk(y.B)
+		case fCmp:
+			if y.L.Const == nil && y.L.Key == atom && y.R.Const != nil {
+				set[*y.R.Const] = true
+			}
+			if y.R.Const == nil && y.R.Key == atom && y.L.Const != nil {
+				set[*y.L.Const] = true
+			}
+		}
+	}
+	walk(f)
+	var out []int64
+	lo := int64(0)
+	for v := range set {
+		out = append(out, v)
+		if v < lo {
+			lo = v
+		}
+	}
+	out = append(out, lo-1)
+	sort.Slice(out, func(i, j int) bool { return out[i] < out[j] })
+	return out
 }
